@@ -1,5 +1,6 @@
 //! Runtime-monitoring harness for irlserver/srtla_send (see /verif/DESIGN.md).
 pub mod linkgen;
+pub mod live;
 pub mod prng;
 pub mod refcodec;
 pub mod report;
